@@ -96,6 +96,29 @@ type world struct {
 	setHook   func(func(string))
 	startPhys int64
 	openErr   error
+	// updNarrow: the updater's own PD requests get short latencies. The updater goroutine selects on its
+	// ticker and on the "shrink the interval" channel; when both are ready the Go runtime picks one at random
+	// (not seedable). Both can only be ready when the updater was busy for a long time, so in scenarios that can
+	// send shrink requests at all the updater is kept fast, which keeps a run a function of its seed.
+	updNarrow bool
+}
+
+// shrinkPossible: a stale-read validation can ask the updater to shrink its interval only while the
+// interval is above the library's lower bound for adaptive intervals; the bound is not mirrored here,
+// "the scenario never uses an interval above 100 ms" is the (conservative) criterion.
+func shrinkPossible(sc *Scenario) bool {
+	big, staleVal := sc.IntervalUs > 100000, false
+	for _, c := range sc.Callers {
+		for _, k := range c.Calls {
+			if k.Kind == "setint" && k.A > 100000 {
+				big = true
+			}
+			if k.Kind == "val" && k.Stale {
+				staleVal = true
+			}
+		}
+	}
+	return big && staleVal
 }
 
 func newWorld(s *simkit.Sim, sc *Scenario) *world {
@@ -107,7 +130,8 @@ func newWorld(s *simkit.Sim, sc *Scenario) *world {
 		faultH: simkit.NewHasher(s.Seed, "pdfault"),
 		yieldH: simkit.NewHasher(s.Seed, "yield"),
 		names:  map[uint64]string{}, occ: map[string]int{},
-		recs: make([][]*Rec, len(sc.Callers)),
+		recs:      make([][]*Rec, len(sc.Callers)),
+		updNarrow: shrinkPossible(sc),
 	}
 }
 
@@ -117,20 +141,15 @@ func (w *world) tracef(format string, args ...any) {
 	w.mu.Unlock()
 }
 
-// goid and a stable logical name of the calling goroutine: registered callers by their index, the
-// goroutines the library starts by the function at the bottom of their stack.
+// gname returns a stable logical name of the calling goroutine: registered callers by their index; the
+// goroutines the library starts by what they are (the updater; a single-flight fetch, qualified by the
+// name of the goroutine that started it, which the runtime prints in the "created by" line of the stack).
 func (w *world) gname() string {
-	var buf [8192]byte
+	var buf [16384]byte
 	n := runtime.Stack(buf[:], false)
 	s := string(buf[:n])
-	id := uint64(0)
-	if rest, ok := strings.CutPrefix(s, "goroutine "); ok {
-		if i := strings.IndexByte(rest, ' '); i > 0 {
-			id, _ = strconv.ParseUint(rest[:i], 10, 64)
-		}
-	}
 	w.mu.Lock()
-	name, ok := w.names[id]
+	name, ok := w.names[goidOf(s)]
 	w.mu.Unlock()
 	switch {
 	case ok:
@@ -138,19 +157,40 @@ func (w *world) gname() string {
 	case strings.Contains(s, ").updateTS"):
 		return "upd"
 	case strings.Contains(s, "singleflight."):
-		return "flt"
+		creator := "?"
+		if i := strings.LastIndex(s, " in goroutine "); i >= 0 {
+			rest := s[i+len(" in goroutine "):]
+			if j := strings.IndexAny(rest, " \n"); j > 0 {
+				rest = rest[:j]
+			}
+			id, _ := strconv.ParseUint(rest, 10, 64)
+			w.mu.Lock()
+			if c, ok := w.names[id]; ok {
+				creator = c
+			}
+			w.mu.Unlock()
+		}
+		return "flt@" + creator
 	}
 	return "anon"
+}
+
+func goidOf(stack string) uint64 {
+	rest, ok := strings.CutPrefix(stack, "goroutine ")
+	if !ok {
+		return 0
+	}
+	if i := strings.IndexByte(rest, ' '); i > 0 {
+		id, _ := strconv.ParseUint(rest[:i], 10, 64)
+		return id
+	}
+	return 0
 }
 
 func (w *world) register(name string) func() {
 	var buf [64]byte
 	n := runtime.Stack(buf[:], false)
-	rest, _ := strings.CutPrefix(string(buf[:n]), "goroutine ")
-	id := uint64(0)
-	if i := strings.IndexByte(rest, ' '); i > 0 {
-		id, _ = strconv.ParseUint(rest[:i], 10, 64)
-	}
+	id := goidOf(string(buf[:n]))
 	w.mu.Lock()
 	w.names[id] = name
 	w.mu.Unlock()
